@@ -104,7 +104,10 @@ def havoc_like(I, name, v, key=None):
         for k_, val in list(v.attrs.items()):
             if k_ in getattr(v, "stable_attrs", ("name", "greater_is_better")):
                 continue
-            v.attrs[k_] = ctx.fresh_int(f"{name}.{k_}") if is_intlike(val) else Opaque(f"{name}.{k_} (after earlier iterations)")
+            if isinstance(val, bool) or (is_sym(val) and is_boollike(val)):
+                v.attrs[k_] = ctx.fresh_bool(f"{name}.{k_}")
+            else:
+                v.attrs[k_] = ctx.fresh_int(f"{name}.{k_}") if is_intlike(val) else Opaque(f"{name}.{k_} (after earlier iterations)")
         return v
     if v.__class__.__name__ == "STable":
         from .libpd import STable
